@@ -4,11 +4,6 @@ import Wayfind.Proofs.Corollaries
 
 /-! The registry along whole histories, and the properties stated on *live templates*. -/
 
-/-- hypothesis of the registry theorems: every template offered to `insert` has pairwise different expansions -/
-def Call.distinct : Call → Prop
-  | .insert t _ => ∀ ts, parseTemplates t = .ok ts → DistinctExps ts
-  | _ => True
-
 /-- the live templates after one call -/
 def liveAfter (r : Router) (L : List LiveT) : Call → List LiveT
   | .constraint _ _ => L
@@ -23,7 +18,7 @@ def liveAfter (r : Router) (L : List LiveT) : Call → List LiveT
       then L.filter (fun lt => lt.template != t) else L
     | .error _ => L
 
-theorem reg_step {r : Router} {L : List LiveT} (h : Reg r.root L) (c : Call) (hc : c.distinct) :
+theorem reg_step {r : Router} {L : List LiveT} (h : Reg r.root L) (c : Call) :
     Reg (r.step c).root (liveAfter r L c) := by
   cases c with
   | constraint name ty =>
@@ -40,7 +35,7 @@ theorem reg_step {r : Router} {L : List LiveT} (h : Reg r.root L) (c : Call) (hc
     | ok r' =>
       obtain ⟨ts, hp, _, _, _⟩ := (Router.insert_ok_iff r r' t d).1 hi
       simp only [hp]
-      exact Reg.insert h hi ts hp (hc ts hp)
+      exact Reg.insert h hi ts hp
   | delete t =>
     simp only [Router.step, Router.delete, liveAfter]
     cases hp : parseTemplates t with
@@ -67,28 +62,27 @@ theorem runLive_fst : ∀ (calls : List Call) (r : Router) (L : List LiveT), (ru
   | [], _, _ => rfl
   | c :: cs, r, L => by simp only [runLive, List.foldl_cons]; exact runLive_fst cs _ _
 
-theorem runLive_reg : ∀ (calls : List Call) (r : Router) (L : List LiveT), Reg r.root L → (∀ c ∈ calls, c.distinct) →
+theorem runLive_reg : ∀ (calls : List Call) (r : Router) (L : List LiveT), Reg r.root L →
     Reg (runLive r L calls).1.root (runLive r L calls).2
-  | [], _, _, h, _ => h
-  | c :: cs, r, L, h, hd => by
+  | [], _, _, h => h
+  | c :: cs, r, L, h => by
     simp only [runLive]
-    exact runLive_reg cs _ _ (reg_step h c (hd c (by simp))) (fun c' hc' => hd c' (by simp [hc']))
+    exact runLive_reg cs _ _ (reg_step h c)
 
 /-- a router reached through the API together with its live templates -/
 def Live (r : Router) (L : List LiveT) : Prop :=
-  ∃ (builtins : List (Bytes × Bytes)) (calls : List Call), (∀ c ∈ calls, c.distinct) ∧
-    (r, L) = runLive { registry := builtins } [] calls
+  ∃ (builtins : List (Bytes × Bytes)) (calls : List Call), (r, L) = runLive { registry := builtins } [] calls
 
 theorem Live.reachable {r : Router} {L : List LiveT} (h : Live r L) : Reachable r := by
-  obtain ⟨b, calls, _, he⟩ := h
+  obtain ⟨b, calls, he⟩ := h
   refine ⟨b, calls, ?_⟩
   have := congrArg Prod.fst he
   simp only at this
   rw [this, runLive_fst]
 
 theorem Live.reg {r : Router} {L : List LiveT} (h : Live r L) : Reg r.root L := by
-  obtain ⟨b, calls, hd, he⟩ := h
-  have := runLive_reg calls { registry := b } [] Reg.empty hd
+  obtain ⟨b, calls, he⟩ := h
+  have := runLive_reg calls { registry := b } [] Reg.empty
   rw [← he] at this
   exact this
 
@@ -114,12 +108,14 @@ theorem search_genuine (env : Env) {r : Router} {L : List LiveT} (h : Live r L) 
     obtain ⟨hwf, hfind⟩ := route_find hreg.shp rt hr
     obtain ⟨lt, hlt, e, he, hk, hok⟩ := hreg.sound _ _ hwf hfind
     subst hm
-    refine ⟨lt, hlt, e, he, ?_, ?_, ?_, ?_⟩
-    · rw [← hi, hok.1]
-    · rw [← hi, hok.2.1]
-    · rw [← hi, hok.2.2.1]
+    obtain ⟨ht, hdat, e', hpk, hexp, _, _⟩ := hok
+    obtain ⟨he', hk'⟩ := pick_mem hpk
+    refine ⟨lt, hlt, e', he', ?_, ?_, ?_, ?_⟩
+    · rw [← hi, ht]
+    · rw [← hi, hdat]
+    · rw [← hi, hexp]
     · have : Fits env rt.parts path ps := by simpa [hps] using hf
-      rw [hk]
+      rw [hk', hk]
       exact (Fits_norm env rt.parts (routes_statsNE r.root hreg.shp rt hr) path ps).1 this
 
 /-- **C02 on live templates.** -/
